@@ -64,7 +64,7 @@ def file_bytes(name, seed):
 
 def alphabet(la, lb):
     ops = [['idx', 'a', 0], ['idx', 'a', 1], ['idx', 'a', min(la - 1, 2 + la // 2)], ['idx', 'a', la - 1],
-           ['idx', 'b', 0], ['idx', 'b', lb - 1],
+           ['idx', 'a', -1], ['idx', 'a', -3], ['idx', 'b', 0], ['idx', 'b', lb - 1], ['idx', 'b', -2],
            ['slice', 'a', 1, min(5, la), None], ['slice', 'b', 2, min(7, lb), 2],
            ['read', 'a', min(3, la - 1), 2], ['read', 'b', 0, None],
            ['newgen', 'a'], ['newgen', 'b'], ['newfilegen'],
